@@ -136,7 +136,14 @@ type result struct {
 }
 
 func run(root *memfs.Node, c cfgT, faults map[string]error) result {
+	return runThen(root, c, faults, nil)
+}
+
+// runThen is run; if after != nil, the same ScanConfig (same extractor instances, same file system
+// object, faults cleared) is scanned a second time and that second result is stored in *after.
+func runThen(root *memfs.Node, c cfgT, faults map[string]error, after *result) result {
 	var res result
+	cur := &res
 	m := memfs.New(root)
 	m.NoReadDirFile = c.NoRDF
 	m.Faults = faults
@@ -144,7 +151,7 @@ func run(root *memfs.Node, c cfgT, faults map[string]error) result {
 	for _, d := range exSets[c.ExSet] {
 		d := d
 		exs = append(exs, &scankit.Ex{N: d.name, Req: d.req, Out: func(e *scankit.Ex, in *filesystem.ScanInput, data []byte, rerr error) (inventory.Inventory, error) {
-			res.calls = append(res.calls, callRec{e.N, in.Path, rerr != nil})
+			cur.calls = append(cur.calls, callRec{e.N, in.Path, rerr != nil})
 			if rerr != nil {
 				return inventory.Inventory{}, rerr
 			}
@@ -172,7 +179,45 @@ func run(root *memfs.Node, c cfgT, faults map[string]error) result {
 	res.overall = sr.Status.Status
 	res.overallS = sr.Status.String()
 	res.log = m.Log
+	if after != nil {
+		m.Faults = nil
+		m.Reset()
+		cur = after
+		p, stack := ev.Recover(func() { sr = scalibr.New().Scan(context.Background(), cfg) })
+		if p != nil {
+			after.panicked = fmt.Sprintf("%v at %s", p, ev.PanicSite(stack))
+			return res
+		}
+		for _, pk := range sr.Inventory.Packages {
+			after.pkgs = append(after.pkgs, pk.Name)
+		}
+		sort.Strings(after.pkgs)
+		after.status = map[string]plugin.ScanStatusEnum{}
+		for _, s := range sr.PluginStatus {
+			after.status[s.Name] = s.Status.Status
+			after.nStatus++
+		}
+		after.overall = sr.Status.Status
+		after.overallS = sr.Status.String()
+	}
 	return res
+}
+
+// sameOutcome compares what two scans reported (packages, per-plugin and overall status, calls).
+func sameOutcome(a, b result) string {
+	if a.panicked != b.panicked {
+		return "panic: " + b.panicked
+	}
+	if strings.Join(a.pkgs, ";") != strings.Join(b.pkgs, ";") {
+		return fmt.Sprintf("packages %v vs %v", a.pkgs, b.pkgs)
+	}
+	if fmt.Sprint(a.status) != fmt.Sprint(b.status) || a.overall != b.overall {
+		return fmt.Sprintf("status %v/%s vs %v/%s", a.status, a.overallS, b.status, b.overallS)
+	}
+	if fmt.Sprint(a.calls) != fmt.Sprint(b.calls) {
+		return fmt.Sprintf("extract calls %v vs %v", a.calls, b.calls)
+	}
+	return ""
 }
 
 // requestedAll returns PathsToExtract for this config: one path for "dir"/"file", two for
@@ -556,6 +601,17 @@ func main() {
 				for _, s := range sites {
 					for _, k := range kindOrder {
 						fs := []fault{{s, k}}
+						if n <= 4 {
+							// a faulted scan must not leave anything behind: the same configuration and
+							// plugin instances, scanned again without the fault, give the fault-free result
+							var second result
+							report(fs, runThen(root, c, faultMap(fs), &second))
+							r.Evals.Add(1)
+							if d := sameOutcome(ref, second); d != "" {
+								r.Violation("scan-after-faulted-scan-differs", fmt.Sprintf("tree %s config %+v: after a scan with fault %v, a second scan of the same configuration without faults differs from the fault-free scan: %s", ts, c, fs, d), map[string]any{"tree": ts, "config": c, "faults": fs})
+							}
+							continue
+						}
 						report(fs, run(root, c, faultMap(fs)))
 					}
 				}
@@ -583,5 +639,5 @@ func main() {
 	r.Set("bound", map[string]any{"single_faults_complete_up_to_nodes": completed, "fault_pairs_complete_up_to_nodes": completedPairs, "configs": len(cfgs)})
 	r.Assume("memfs numbers every FS operation of a scan deterministically; a fault is identified by (operation, path, occurrence)")
 	r.Assume("UseGitignore stays off: the property's quantifier lists the operation sites of the plain walk")
-	r.Finish(fmt.Sprintf("every tree with <=%d nodes holding >=1 required file (dirs a,b; p1.txt, p2.txt (required by 2 extractors), x.bin (exec, predicate calls Stat), junk) x {ErrorOnFSErrors} x {MaxFileSize 0,100} x {ReadDirFile, fallback} x 2 extractor sets x {whole-tree walk, explicitly requested directory, explicitly requested file, directory then file, file then directory}: every single fault = every operation site of the fault-free run x {permission, I/O, not-exist}; every pair of sites (trees <=%d nodes) with 3 kind combinations; each faulted Scan compared with the fault-free Scan. non-trivial = runs in which every injected fault was actually reached (a first fault can mask the second)", maxNodes, pairNodes), completed == maxNodes)
+	r.Finish(fmt.Sprintf("every tree with <=%d nodes holding >=1 required file (dirs a,b; p1.txt, p2.txt (required by 2 extractors), x.bin (exec, predicate calls Stat), junk) x {ErrorOnFSErrors} x {MaxFileSize 0,100} x {ReadDirFile, fallback} x 2 extractor sets x {whole-tree walk, explicitly requested directory, explicitly requested file, directory then file, file then directory}: every single fault = every operation site of the fault-free run x {permission, I/O, not-exist}; every pair of sites (trees <=%d nodes) with 3 kind combinations; each faulted Scan compared with the fault-free Scan; for single faults on trees <=4 nodes the same configuration is then scanned again without the fault and must equal the fault-free scan. non-trivial = runs in which every injected fault was actually reached (a first fault can mask the second)", maxNodes, pairNodes), completed == maxNodes)
 }
